@@ -59,6 +59,20 @@ func seqUserMemoryProp(st *ev.Stats, alwaysTrap bool) func(t *rapid.T) {
 			w.storeLoadCycle(t, st, true)
 			restoredChecked = true
 		}
+		acts["scan"] = func(t *rapid.T) {
+			// iterators that renew their accessor token while scanning (refresh rate 1-3) and explicit visits
+			i := w.drawOpenSnap(t)
+			if rapid.IntRange(0, 3).Draw(t, "visit") == 0 {
+				parts, err, timedOut := w.runVisitor(i, rapid.IntRange(1, 6).Draw(t, "shards"), rapid.IntRange(1, 3).Draw(t, "conc"), nil)
+				if timedOut || err != nil || !equalSeq(ConcatShards(parts), w.snaps[i].content) {
+					w.Failf("visitor-content", "Visitor on s%d: timedOut=%v err=%v", i, timedOut, err)
+				}
+				return
+			}
+			w.CheckSnap(i, rapid.IntRange(1, 3).Draw(t, "scanrate"), "snapshot-isolation")
+			w.flag("scan-with-refresh")
+		}
+		acts["scan_b"] = acts["scan"]
 		acts["backup_old"] = func(t *rapid.T) {
 			if cycles >= 2 {
 				t.Skip("no backup")
